@@ -19,7 +19,7 @@ SetupsQuick == { S(128, 6, 256, 2),      \* GET_DESCRIPTOR(device), truncated
                  S(0, 5, 5, 0),          \* SET_ADDRESS(5)
                  S(0, 9, 1, 0),          \* SET_CONFIGURATION(1)
                  S(0, 3, 1, 0) }         \* SET_FEATURE: not implemented       -> STALL at the status stage
-SetupsThorough == SetupsQuick \cup { S(128, 6, 512, 9), S(128, 0, 0, 2), S(64, 1, 0, 0), S(192, 1, 0, 4), S(128, 8, 0, 1) }
+SetupsThorough == SetupsQuick \cup { S(128, 6, 512, 9), S(128, 0, 0, 2), S(64, 1, 0, 0), S(192, 1, 0, 4) }
 
 Do(e) == Judge(e) = "ok" /\ Apply(e)
 
